@@ -426,6 +426,40 @@ func famReloadReplacement(bounds map[string]int) []*Scenario {
 	return out
 }
 
+// famLagReplacement: the replacement pod of a reserving deployment exists in the API server but not yet in galaxy-ipam's pod
+// informer cache; it is scheduled (kube-scheduler hands the pod object over itself) next to a resync pass.
+func famLagReplacement(bounds map[string]int) []*Scenario {
+	var out []*Scenario
+	for _, c := range []wkClass{{"dp", "immutable"}, {"dp", "never"}, {"dppool", ""}} {
+		c := c
+		cfg := cfgOnePool(3, false)
+		cfg.Lag = true
+		out = append(out, &Scenario{Name: "lagging-cache-vs-replacement/" + c.String(), Class: c.String(), Cfg: cfg, Bounds: bounds, Weight: 3,
+			Build: func(w *world.World) []Thread {
+				c.setWorkload(w, 1)
+				w.CreatePod(c.pod(0))
+				w.SyncAllPodCaches()
+				mustSchedule(w, c.pod(0).Key())
+				ips := strings.Join(w.Bindings[0].IPs, ",")
+				w.DeletePod(c.pod(0).Key())
+				w.SyncAllPodCaches()
+				deliverAll(w, takePending(w))()
+				repl := c.pod(0)
+				repl.Name = "d-r1-w"
+				w.CreatePod(repl) // in the API server; the informer cache has not caught up
+				w.MustKeep = map[string]string{"replacement:" + repl.Key(): ips}
+				return []Thread{
+					{"sched-replacement", scheduleRetry(w, repl.Key(), 2)},
+					{"resync", func() { _ = w.Resync() }},
+					{"cache-sync", func() { w.SyncAllPodCaches() }},
+				}
+			},
+			Final: func(w *world.World) { w.SyncAllPodCaches(); quiesce(w) },
+		})
+	}
+	return out
+}
+
 // famAPIRelease (S5): an administrator posts a listed entry back to the release API while the
 // scheduler works on the pod that is entitled to the IP.
 func famAPIRelease(cloud bool, bounds map[string]int) []*Scenario {
